@@ -90,6 +90,10 @@ def check(seed: pathlib.Path, tier: str, checks, vseed: int, budget, inplace: bo
             environ = dict(os.environ)
             if not inplace:
                 environ["VERIF_REPO"] = target
+            # keep the evidence and replays of the unchanged tree untouched
+            environ["VERIF_EVIDENCE_DIR"] = f"/tmp/seedtest-out/{seed.name}/evidence"
+            environ["VERIF_REPLAY_DIR"] = f"/tmp/seedtest-out/{seed.name}/replays"
+            os.makedirs(environ["VERIF_EVIDENCE_DIR"], exist_ok=True)
             proc = sh(cmd, cwd=str(VERIF), capture_output=True, text=True, timeout=7200, env=environ)
             mechanisms = [l.strip() for l in proc.stdout.splitlines() if l.strip().startswith("mechanism:")]
             results[pid] = (proc.returncode, round(time.time() - t0), mechanisms[:6])
